@@ -43,7 +43,8 @@ RULE = ("Part A (driver 'choose'): Hypothesis-generated SOCKSPort stores in a re
         "digits are a substring of a configured line) x eight public routes into the discover-or-add logic "
         "(_create_socks_endpoint, Tor._default_socks_endpoint, Tor.web_agent + request, Tor.stream_via + connect, "
         "Tor.dns_resolve, TorClientEndpoint.from_connection + connect, TorConfig.create_socks_endpoint, "
-        "TorConfig.socks_endpoint) x repeat-the-call x CONF_CHANGED echo; plus 24 fixed scenarios. "
+        "TorConfig.socks_endpoint) x repeat-the-call x CONF_CHANGED echo; plus 24 fixed scenarios and, in the "
+        "thorough tier, the full grid of 22 fixed stores x every compatible request x every route. "
         "Part B (driver 'fallback'): TorClientEndpoint without a SOCKS endpoint, connect() on a fake reactor whose "
         "connectTCP outcome per attempt is drawn from connection errors (refused, timeout, no route, bind, generic), "
         "other exceptions (raised by connectTCP, or reported asynchronously), SOCKS-level failures after TCP "
@@ -122,7 +123,7 @@ def choose_cases(draw):
     elif route == "cfg_sync":
         req = draw(sp.requests(store, with_options=False, as_int=True))
     else:
-        req = draw(sp.requests(store, with_options=True, full_line=(route == "cfg_create")))
+        req = draw(sp.requests(store, with_options=True, full_line=True))
     return {"route": route, "store": store, "req": req,
             "again": draw(st.sampled_from([False, False, True])), "echo": draw(st.booleans())}
 
@@ -157,6 +158,41 @@ def _fixed_choose():
             again=True)
     yield c("cfg_sync", ["unix:/run/tor/socks WorldWritable", "9050"], None, None)
     yield c("cfg_sync", tbb, None, 9150)
+
+
+GRID_STORES = [
+    (None, []), (None, ["9150 IPv6Traffic PreferIPv6"]), (None, ["unix:/run/tor/socks WorldWritable"]),
+    (None, ["9150 IsolateDestAddr", "9151"]), (["0"], []), (["auto"], []), (["auto IsolateDestAddr"], []),
+    (["9050"], []), (["9050 IsolateDestAddr SessionGroup=3"], []), (["127.0.0.20:9050"], []),
+    (["192.168.0.1:1080 OnionTrafficOnly"], []), (["0.0.0.0:9050 IsolateClientAddr"], []),
+    (["[::1]:9150"], []), (["[2001:db8::5]:9150 NoIPv4Traffic"], []),
+    (["unix:/run/tor/socks"], []), (["unix:/run/tor/socks WorldWritable RelaxDirModeCheck"], []),
+    (['unix:"/run/tor/so cks"'], []), (['unix:"/tmp/a b/socks" GroupWritable'], []),
+    (["9150 IPv6Traffic PreferIPv6 KeepAliveIsolateSOCKSAuth", "9155"], []),
+    (["[::1]:9150 IsolateDestAddr", "auto NoIPv6Traffic"], []),
+    (["unix:/run/tor/socks WorldWritable", "9050 IsolateDestAddr", "10.0.0.1:9051"], []),
+    (['unix:"/run/tor/so cks" WorldWritable', "9050 NoIsolateSOCKSAuth", "[::1]:9 CacheDNS", "auto"], []),
+]
+GRID_ABSENT = ["9999", "905", "10.0.0.1:9999 IsolateDestAddr", "unix:/tmp/foo/socks",
+               "unix:/tmp/foo/socks WorldWritable"]
+
+
+def grid_cases():
+    """Every route x every compatible request over a fixed table of stores (thorough tier)."""
+    for value, alt in GRID_STORES:
+        store = {"value": value, "alt": alt}
+        musts = [e for e, _ in sp.listeners(sp.store_lines(store)) if e["cls"] == "must"]
+        reqs = [None] + [e["addr"] for e in musts] + [e["line"] for e in musts if e["options"]] + GRID_ABSENT
+        for route in ROUTES:
+            if route.startswith("cfg_") and len(alt) > 1:
+                continue
+            for req in reqs:
+                if req is not None and (route in ADDING_NOREQ or (route == "cfg_sync" and " " in req)):
+                    continue
+                for again in (False, True):
+                    yield {"route": route, "store": store, "req": req, "again": again, "echo": True}
+                if route == "cfg_sync" and req is not None and req.isdigit():
+                    yield {"route": route, "store": store, "req": int(req), "again": False, "echo": False}
 
 
 # =========================================================================== Part A: driver
@@ -471,8 +507,10 @@ def _one_call(res, w, case, round_no):
 
     if mode in ("use-any", "use-exact"):
         if changing:
-            res.bad("setconf-although-configured-entry-satisfies-request",
-                    "Tor has %r, request %r, yet %r was sent" % (lines, req, changing))
+            tag = "setconf-although-configured-entry-satisfies-request"
+            if mode == "use-exact" and str(req) == which["line"] and which["options"]:
+                tag = "configured-line-with-options-not-recognised-as-present"
+            res.bad(tag, "Tor has %r, request %r, yet %r was sent" % (lines, req, changing))
             return False
         if mode == "use-exact":
             judge_target(sp.connect_targets(sp.listener_key(which)), exact=True)
@@ -539,12 +577,12 @@ def drive_choose(case):
 # =========================================================================== Part B: fallback
 
 CONNECT_ERRORS = {
-    "refused": lambda i: error.ConnectionRefusedError("refused #%d" % i),
-    "timeout": lambda i: error.TimeoutError("timeout #%d" % i),
-    "tcp_timeout": lambda i: error.TCPTimedOutError("tcp timeout #%d" % i),
-    "noroute": lambda i: error.NoRouteError("no route #%d" % i),
-    "connect_error": lambda i: error.ConnectError("connect error #%d" % i),
-    "bind": lambda i: error.ConnectBindError("bind #%d" % i),
+    "refused": lambda i: error.ConnectionRefusedError(string="refused #%d" % i),
+    "timeout": lambda i: error.TimeoutError(string="timeout #%d" % i),
+    "tcp_timeout": lambda i: error.TCPTimedOutError(string="tcp timeout #%d" % i),
+    "noroute": lambda i: error.NoRouteError(string="no route #%d" % i),
+    "connect_error": lambda i: error.ConnectError(string="connect error #%d" % i),
+    "bind": lambda i: error.ConnectBindError(string="bind #%d" % i),
 }
 OTHER = ("other_sync", "other_async")
 SOCKSY = ("socks_error", "socks_no_method")
@@ -574,7 +612,7 @@ def _outcome():
     plain = st.sampled_from(KINDS).map(lambda k: {"k": k})
     socks = st.integers(1, 8).map(lambda n: {"k": "socks_error", "rep": n})
     conn = st.sampled_from(sorted(CONNECT_ERRORS)).map(lambda k: {"k": k})
-    return st.one_of(plain, conn, conn, socks)
+    return st.one_of(plain, conn, conn, socks, st.just({"k": "success"}))
 
 
 def fallback_cases():
@@ -622,7 +660,7 @@ def drive_fallback(case):
         if i >= len(WELL_KNOWN):
             res.bad("attempt-beyond-well-known-ports", "attempts %r" % ([a[:2] for a in r.attempts],))
             return res
-        if len(r.attempts) > i + 1:
+        if len(r.attempts) > i + 1 and not isinstance(r.attempts[i][2], Exception):
             res.bad("next-port-tried-before-connection-error", "attempts %r while #%d is unresolved" % (
                 [a[:2] for a in r.attempts], i))
             return res
@@ -634,7 +672,7 @@ def drive_fallback(case):
         o = outcomes[i] if i < len(outcomes) else {"k": "refused"}
         k = o["k"]
         res.label("attempt%d:%s" % (i, k if k not in CONNECT_ERRORS else "connection-error"))
-        before = len(r.attempts)
+        before = i + 1
         if k in CONNECT_ERRORS:
             exc = CONNECT_ERRORS[k](i)
             conn.fail(failure.Failure(exc))
@@ -782,8 +820,67 @@ MANIFEST = {
 def run(ctx):
     ctx.enumerate("choose", _fixed_choose(), name="fixed-scenarios", exhaustive=False)
     ctx.enumerate("fallback", all_two_step_cases(), name="all-two-step-outcome-sequences")
-    ctx.search("choose", choose_cases(), quick=1500, thorough=5000)
-    ctx.search("fallback", fallback_cases(), quick=300, thorough=1000)
+    if not ctx.quick():
+        ctx.enumerate("choose", grid_cases(), name="route-x-request-grid")
+    ctx.search("choose", choose_cases(), quick=2500, thorough=5000)
+    ctx.search("fallback", fallback_cases(), quick=500, thorough=1000)
 
 
-MUTANTS = []
+# Written against the tree with out/fixes/C18-*.diff applied (several entries undo part of a fix and match
+# nothing before); run with vlib.mutants.REPO pointing at a git-initialised patched copy.
+E, T = "txtorcon/endpoints.py", "txtorcon/torconfig.py"
+MUTANTS = [
+    ("always-setconf", E,
+     "    if socks_endpoint is None:\n        if socks_config is None:",
+     "    if True:\n        if socks_config is None:"),
+    ("only-send-the-new-port", E,
+     "        for p in socks_lines:\n", "        for p in socks_lines[-1:]:\n"),
+    ("drop-option-words", E,
+     "    socks_lines = list(socks_ports)\n", "    socks_lines = [p.split()[0] for p in socks_ports]\n"),
+    ("relist-in-reverse-order", E,
+     "        for p in socks_lines:\n", "        for p in socks_lines[::-1]:\n"),
+    ("one-setconf-per-line", E,
+     "        yield control_protocol.set_conf(*args)\n",
+     "        for k in range(0, len(args), 2):\n            yield control_protocol.set_conf(*args[k:k + 2])\n"),
+    ("ignore-the-requested-port", E,
+     "        if socks_config and p != socks_config.split()[0]:\n", "        if False:\n"),
+    ("unset-marker-kept", E,
+     "            if default == DEFAULT_VALUE:\n                socks_ports = []\n            elif",
+     "            if False:\n                socks_ports = []\n            elif"),
+    ("endpoint-for-old-port-after-adding", E,
+     "        socks_endpoint = _endpoint_from_socksport_line(reactor, socks_config)\n\n    assert",
+     "        socks_endpoint = _endpoint_from_socksport_line(reactor, socks_lines[0])\n\n    assert"),
+    ("port-zero-accepted", T,
+     "    if port == 0:\n", "    if False:\n"),
+    ("unix-options-kept-in-path", T,
+     "        return UNIXClientEndpoint(reactor, socks_config.split()[0][5:])",
+     "        return UNIXClientEndpoint(reactor, socks_config[5:])"),
+    ("explicit-host-ignored", T,
+     "        host, port = socks_config.split(':', 1)\n        port = int(port)",
+     "        host, port = socks_config.split(':', 1)\n        host, port = '127.0.0.1', int(port)"),
+    ("config-substring-match", T,
+     "            if not any([socks_config == str(port) or socks_config == str(port).split()[0]\n"
+     "                        for port in self.SocksPort]):",
+     "            if not any([socks_config in str(port) for port in self.SocksPort]):"),
+    ("config-create-does-not-save", T,
+     "                self.SocksPort.append(socks_config)\n                try:\n                    yield self.save()",
+     "                self.SocksPort.append(socks_config)\n                try:\n                    yield defer.succeed(None)"),
+    ("config-socks-endpoint-prefix-match", T,
+     "                if port_config.split()[0] == port:", "                if port_config.split()[0].startswith(port):"),
+    ("try-9150-first", E,
+     "    socks_ports_to_try = [9050, 9150]", "    socks_ports_to_try = [9150, 9050]"),
+    ("only-9050", E,
+     "    socks_ports_to_try = [9050, 9150]", "    socks_ports_to_try = [9050]"),
+    ("continue-after-any-error", E,
+     "                except error.ConnectError as e0:", "                except Exception as e0:"),
+    ("continue-after-socks-error", E,
+     "                except error.ConnectError as e0:",
+     "                except (error.ConnectError, __import__('txtorcon.socks').socks.SocksError) as e0:"),
+    ("move-on-only-after-refused", E,
+     "                except error.ConnectError as e0:", "                except error.ConnectionRefusedError as e0:"),
+    ("swallow-the-last-error", E,
+     "            if last_error is not None:\n                raise last_error",
+     "            if last_error is not None:\n                return None"),
+    ("report-the-first-error", E,
+     "                    last_error = e0\n", "                    last_error = last_error or e0\n"),
+]
